@@ -50,7 +50,7 @@ class World:
         buf = kwargs.get("buffer", args[2] if len(args) > 2 else None)
         n = sum(1 for e in I.effects if e.kind == "alloc")
         pos = self.alloc_pos if n == 0 else Sym(Poly.atom(f"off{n}"))
-        I.effects.append(Effect("alloc", size=size, pos=pos))
+        I.effects.append(Effect("alloc", size=size, pos=pos, buf=(buf if isinstance(buf, Obj) else self.buffer)))
         return (buf if isinstance(buf, Obj) else self.buffer, pos)
 
     def _size(self, I, scalar):
